@@ -287,6 +287,52 @@ def make_history_run(nworkers):
     return run
 
 
+def run_init(ctx):
+    """The liveness proof of __call__ (all tasks are put before any answer is read) rests on the
+    queue contract `put never blocks`.  That is the documented behaviour of an UNBOUNDED
+    multiprocessing.Queue (a feeder thread buffers the items) and of nothing else in the module:
+    SimpleQueue / Pipe write into a 64 KiB OS pipe and block when it is full, a Queue with maxsize
+    blocks when it is full.  The real __init__ is run against a recording stand-in of the
+    multiprocessing module: both queues are created by Queue() without a size limit, the workers
+    are Process(target=worker_run, args=(task_queue, result_queue, pickled equilibrium)) with
+    exactly these two queues in this order, np of them, every one started; np = 1: no queue, no
+    process, serial attributes set."""
+    from hypnotoad.utils import parallel_map as PM
+    from vc.shim import patched
+
+    made = []
+
+    class FakeMP:
+        def __getattr__(self, name):
+            def ctor(*a, **k):
+                obj = types.SimpleNamespace(kind=name, args=a, kwargs=k, started=0)
+                obj.start = lambda o=obj: setattr(o, "started", o.started + 1)
+                made.append(obj)
+                return obj
+
+            return ctor
+
+    eq = types.SimpleNamespace(psi="PSI", f_R="FR", f_Z="FZ")
+    out = {}
+    for np_ in (1, 2, 3):
+        del made[:]
+        pm = object.__new__(PM.ParallelMap)
+        with patched((PM, "multiprocessing", FakeMP())), _dill_identity(PM, eq):
+            PM.ParallelMap.__init__(pm, np_, equilibrium=eq)
+        out[np_] = (pm, list(made))
+    with spec_mode():
+        pm1, made1 = out[1]
+        ctx.oblige(TRUE(made1 == [] and pm1.workers is None and pm1.equilibrium is eq and (pm1.psi, pm1.f_R, pm1.f_Z) == ("PSI", "FR", "FZ")), "np=1: serial -- no queue, no process")
+        for np_ in (2, 3):
+            pm, mk_ = out[np_]
+            qs = [o for o in mk_ if o.kind != "Process"]
+            ps = [o for o in mk_ if o.kind == "Process"]
+            ctx.oblige(TRUE(len(qs) == 2 and all(q.kind == "Queue" and q.args == () and not q.kwargs for q in qs)), "np=%d: both queues are unbounded multiprocessing.Queue objects (the class whose put never blocks)" % np_)
+            ctx.oblige(TRUE(len(qs) == 2 and pm.task_queue is not pm.result_queue and {id(pm.task_queue), id(pm.result_queue)} == {id(q) for q in qs}), "np=%d: two distinct queues, kept as task_queue / result_queue" % np_)
+            ctx.oblige(TRUE(len(ps) == np_ and pm.workers == ps and all(p.started == 1 for p in ps)), "np=%d: np worker processes, each started once" % np_)
+            ctx.oblige(TRUE(all(p.kwargs.get("target") is PM.ParallelMap.worker_run and len(p.kwargs.get("args", ())) == 3 and p.kwargs["args"][0] is pm.task_queue and p.kwargs["args"][1] is pm.result_queue and p.kwargs["args"][2] is eq for p in ps)), "np=%d: workers run worker_run(task_queue, result_queue, pickled equilibrium)" % np_)
+
+
 def make_serial_run(n, failing=None):
     def run(ctx):
         from hypnotoad.utils import parallel_map as PM
@@ -347,6 +393,7 @@ def run_frame(ctx):
 
 def build(S):
     S.under_contract(FN_CALL, FN_WORK)
+    S.assume("external (assumed): an unbounded multiprocessing.Queue never blocks in put (feeder thread); __init__ is proved to create exactly that")
     S.assume("external contract (assumed): multiprocessing.Queue delivers every item put exactly once, in arbitrary order; dill/pickle round-trip objects; a worker process is not killed from outside")
     S.assume("A-SHAPE: all completion orders of n <= 4 tasks (and 1..2 failing positions) are enumerated exhaustively as paths; n is not symbolic (a Python list of symbolic length cannot be executed by CPython)")
     S.assume("A-PURE: task results are opaque symbols; the mapped function is deterministic")
@@ -359,6 +406,8 @@ def build(S):
         S.contract("__call__[serial,n=%d,failing=%s]" % (n, sorted(failing)), FN_CALL, make_serial_run(n, failing), shape="n=%d" % n)
     for n, failing in ((2, {1}), (3, {0})):
         S.contract("__call__[parallel,n=%d,failing=%s,unrebuildable exception]" % (n, sorted(failing)), FN_WORK, make_call_run(n, 2, failing, exc_type=MultiArgError), shape="n=%d" % n, max_paths=100000)
+    S.under_contract("hypnotoad.utils.parallel_map:ParallelMap.__init__")
+    S.contract("__init__[queues and workers]", "hypnotoad.utils.parallel_map:ParallelMap.__init__", run_init, shape="np = 1, 2, 3; multiprocessing replaced by a recorder")
     for nw in (1, 2, 3):
         S.contract("history[4 successive maps, %d live worker(s)]" % nw, FN_WORK, make_history_run(nw), shape="4 calls x 3 tasks, FIFO queues, workers alive across calls")
     S.contract("call-sites[frame]", "hypnotoad.core.mesh:MeshRegion", run_frame, shape="-")
